@@ -475,7 +475,10 @@ wait:
 	}
 	o.Count("order " + strings.Join(names, " < "))
 
-	// M3: goroutine accounting
+	// M3: goroutine accounting (the CPU hogs are stopped first: a leak is a leak without them, and
+	// a late watcher must not be starved by the harness's own load)
+	atomic.StoreInt32(&stopHogs, 1)
+	hogWG.Wait()
 	polls := 0
 	var cnt int
 	var dump string
